@@ -170,7 +170,7 @@ def queries(tier, seed):
             what="2 parked callers, 2 dispatchers interleaved at every registry access / blocking operation: <= 2 preemptions (~1500 schedules)"),
           Q("k2/full/P1", "rendezvous", {"k": 2, "K": 30, "maxp": 1, "eagerW": True}, cto=t, pto=t, what="2 callers + 2 dispatchers from the start, <= 1 preemption, sender eager (~3000 schedules)")]
     if tier != "quick":
-        T = 7200
+        T = 2400
         qs += [Q("k1/stray", "rendezvous", {"k": 1, "K": 24, "stray": True}, cto=t, pto=t, what="stray answer with an unknown Hop-by-Hop, unbounded preemptions"),
                Q("k1/lines/all", "rendezvous", {"k": 1, "K": 60, "lines": True, "eagerW": True}, cto=T, pto=T, what="k=1 at source-line granularity, unbounded preemptions (~175 000 schedules)"),
                Q("k2/dispatch/ops/all", "rendezvous", {"k": 2, "K": 60, "phase": "dispatch", "eagerW": True}, cto=t, pto=t, what="dispatch phase, unbounded preemptions (~13 000 schedules)"),
